@@ -1,6 +1,8 @@
 package props
 
 import (
+	"syscall"
+	"os"
 	"fmt"
 	"regexp"
 	"runtime/debug"
@@ -44,4 +46,22 @@ func guard(c *core.C, what string, detail any, f func()) (panicked bool) {
 	}()
 	f()
 	return false
+}
+
+
+// scratchBase creates the scratch directory of a storage case. With otherDevice it is placed on a file system
+// other than the one holding the system temporary directory (tmpfs under /dev/shm) when the sandbox has one: a
+// store that stages its data in the system temporary directory then meets a rename across devices.
+func scratchBase(c *core.C, prefix string, otherDevice bool) (string, error) {
+	if otherDevice {
+		var a, b syscall.Stat_t
+		if syscall.Stat("/dev/shm", &a) == nil && syscall.Stat(os.TempDir(), &b) == nil && a.Dev != b.Dev {
+			if d, err := os.MkdirTemp("/dev/shm", "vcheck-"+prefix); err == nil {
+				c.Cover("store-directory-on-another-file-system-than-the-temporary-directory")
+				return d, nil
+			}
+		}
+		c.Cover("no-second-file-system-available(cross-device scenario not run)")
+	}
+	return os.MkdirTemp(os.Getenv("VCHECK_SCRATCH"), prefix)
 }
